@@ -9,13 +9,24 @@ import units as units_tr  # noqa: E402
 
 RULE = ("requests are drawn from VERIF_SEED (tables 1..200 x 1..12, values over 600 decades of either sign, integers, "
         "fractions, six-digit ties, multi-line headers, unit factors over 60 decades) plus one request per unit constant "
-        "and per derived-unit identity; a case is non-trivial when the model answers ok/err and is counted once per "
+        "and per derived-unit identity; coverage extension: Time_Display on 0, sub-millisecond, seconds … 1.9e9 years, values 0.5 ms either side "
+        "of every carry, whole seconds (knife-edges), negative inputs; Reduced_Mass over 40 decades; every colour x bold of Formatted_String "
+        "plus unknown colours; Check_For_Warning both ways; File_Exists on file/directory/missing/empty path; operator<< of Vector (0..8), "
+        "Matrix (1x1..6x6), DataPoint; Save_Function of 1-D/2-D interpolants on dyadic tables for 0..40 points, Interpolation_2D(); "
+        "a case is non-trivial when the model answers ok/err and is counted once per "
         "(op, shape class, header-line count, notation classes hit, outcome) key; unit constants once per (name, build)")
-CORR_ONLY = ["character-level glue of the model (lexing the rendered file gives back the tokens; parseDec(render d) = value d) "
+CORR_ONLY = ["Time_Display at floor knife-edges of the double arithmetic (a floor argument within 2^-44*|seconds| of an integer, e.g. whole "
+             "seconds): a neighbouring decomposition that adds up to the input is accepted and counted as excused; malformed fields there "
+             "(06s:1000ms, 27s:0-1ms) are reported only with LP_C20_TIME_STRICT=1 (finding, see the worker report)",
+             "Save_Function values that are not exactly representable: token-level class B (six-digit rendering of the exact model value, "
+             "absolute slack 2^-40 of the table's scale), counted as excused",
+             "File_Exists: the file system is a parameter of the model (PathKind)",
+             "character-level glue of the model (lexing the rendered file gives back the tokens; parseDec(render d) = value d) "
              "is validated on every round-trip request by the driver (glue1/tl1), not proved",
              "Export_Function with logarithmic spacing (Log_Space: exp/log) is not modelled",
              "values of the constants involving M_PI, sqrt, non-integer pow: the opaque nodes are evaluated with mpmath on the comparison side"]
-ASSUMPTIONS = ["ostream << double with default flags is %g with precision 6, correctly rounded (ties of exactly representable decimals to even); istream >> double reads a white-space delimited decimal token, correctly rounded",
+ASSUMPTIONS = ["std::to_string(int) is the decimal representation with a leading '-' for negative values; std::floor/int conversion exact for |t| < 2^31",
+               "ostream << double with default flags is %g with precision 6, correctly rounded (ties of exactly representable decimals to even); istream >> double reads a white-space delimited decimal token, correctly rounded",
                "a compiler folds initialisers built from literals, M_PI, + - * / and earlier constant-initialised names (checked per build with nm); pow()/sqrt() calls are treated as dynamic (g++ folds them, clang++ does not)",
                "generated values keep a relative margin 2^-40 from six-digit rounding boundaries unless the double division x/u is exact"]
 TRUSTED = ["translators/units.py (regenerates lean/LpModel/C20/Generated.lean from src/Natural_Units.cpp before every lake build; cross-checked by the values read in the separately compiled builds)",
